@@ -88,6 +88,9 @@ def _account(ctx: Ctx, case, summ, suite):
 
 
 def run(ctx: Ctx):
+    import fsize
+    for _ in range(ctx.n(1, 8)):
+        fsize.take_case(ctx, fsize.rand_take_cfg(ctx.rng))
     # tie of the job data-plane model used by C02_world_crash_restore (shared with C01): in particular the number of
     # storage objects each rank writes (= the protocol model's nw r) and their bytes
     from props import c01_world
@@ -179,6 +182,15 @@ def _thorough(ctx: Ctx, cut_rng):
 
 
 def replay(ctx: Ctx, rec):
+    if isinstance(rec.get("input"), dict) and rec["input"].get("fsize_limit"):
+        import fsize
+        cfg = {k: v for k, v in rec["input"].items() if k not in ("fsize_limit", "dir", "mode")}
+        (fsize.plugin_case if rec["input"]["fsize_limit"] == "plugin" else fsize.take_case)(ctx, cfg, "replay")
+        for f_ in ctx.failures[:10]:
+            print("FAIL", f_["sig"], f_["what"], f_["observed"])
+        if not ctx.failures:
+            print("no failure on replay")
+        return
     if "glob" in rec["input"] or "glob" in (rec["input"].get("case") or {}):
         from props import c01_world
         c01_world.world_tie_case(ctx, rec["input"].get("case") or rec["input"], "replay")
